@@ -217,17 +217,21 @@ def _generate(task, rng, world, nops, weights, on_op, seed_ops, strict):
                 return
             g.emit(rec)
             flush()
-        except yastn.YastnError as e:
-            # an op the generator believed valid was rejected: kept out of the program, counted.
+        except core.Violation:
+            raise
+        except Exception as e:  # noqa: BLE001
+            # an op the generator believed valid raised: it STAYS in the program (without outputs), so that the
+            # simulated run meets it again and the property's exception policy decides; counted as 'rejected'
             bad = getattr(e, "verif_rec", None)
-            if bad is not None and g.program and g.program[-1] is bad:
-                g.program.pop()
+            g.rejected = getattr(g, "rejected", [])
+            g.rejected.append((bad or {}).get("op", name) + ": " + type(e).__name__ + ": " + str(e)[:120])
+            if bad is not None:
                 for s in bad.get("out", []):
                     task.slots.pop(s, None)
                     task.shadows.pop(s, None)
-            g.rejected = getattr(g, "rejected", [])
-            g.rejected.append((bad or {}).get("op", name) + ": " + str(e)[:120])
-            flush()
+                done.add(bad["id"])
+            else:
+                raise
     for name in seed_ops:
         attempt(name)
         attempt(name)
